@@ -719,7 +719,61 @@ private:"""),
     dict(property="C04", name="reduced-rhs-missing-rcent", rule="R-C04-6", file="src/program/solver.cpp",
          old="state.m_rdual + G.transpose() * (state.m_rcent.array() / Gxh.array()).matrix(), state.m_rprim);", new="state.m_rdual, state.m_rprim);"),
     dict(property="C04", name="initial-multipliers-negative", rule="R-C04-7", file="src/program/solver.cpp",
-         old="    state.m_u = -1.0 / (G * x0 - h).array();", new="    state.m_u = 1.0 / (G * x0 - h).array();"),]
+         old="    state.m_u = -1.0 / (G * x0 - h).array();", new="    state.m_u = 1.0 / (G * x0 - h).array();"),    # ---- C05
+    dict(property="C05", name="quadratic-penalty-gradient-missing-2", rule="R-C05-2", file="src/function/penalty.cpp",
+         old="            gx += penalty() * 2.0 * fc * gc;", new="            gx += penalty() * fc * gc;"),
+    dict(property="C05", name="linear-penalty-value-squared", rule="R-C05-1", file="src/function/penalty.cpp",
+         old="        return penalty() * std::fabs(fc);", new="        return penalty() * fc * fc;"),
+    dict(property="C05", name="al-guard-ignores-multiplier", rule="R-C05-1", file="src/function/penalty.cpp",
+         old="        if (eq || (fc + mu / ro > 0.0))", new="        if (eq || (fc > 0.0))"),
+    dict(property="C05", name="al-value-missing-half", rule="R-C05-1", file="src/function/penalty.cpp",
+         old="            fx += 0.5 * ro * (fc + mu / ro) * (fc + mu / ro);", new="            fx += ro * (fc + mu / ro) * (fc + mu / ro);"),
+    dict(property="C05", name="al-multipliers-share-counter", rule="R-C05-7", file="src/function/penalty.cpp",
+         old="const auto mu = eq ? m_lambda(ilambda++) : m_miu(imiu++);", new="const auto mu = eq ? m_lambda(ilambda++) : m_miu(ilambda++);"),
+    dict(property="C05", name="is-equality-drops-quadratic", rule="R-C05-3", file="src/function/constraint.cpp",
+         old="           std::get_if<constraint::quadratic_equality_t>(&constraint) != nullptr ||\n", new=""),
+    dict(property="C05", name="vgrad-visitor-loses-minimum", rule="R-C05-4", file="src/function/constraint.cpp",
+         old="                   [&](const minimum_t& ct) { return ::vgrad(ct, x, gx); },\n", new=""),
+    dict(property="C05", name="valid-equality-one-sided", rule="R-C05-5", file="src/function/constraint.cpp",
+         old="""auto valid(const linear_equality_t& constraint, vector_cmap_t x)
+{
+    return std::fabs(::vgrad(constraint, x));""", new="""auto valid(const linear_equality_t& constraint, vector_cmap_t x)
+{
+    return std::max(::vgrad(constraint, x), 0.0);"""),
+    dict(property="C05", name="ball-gradient-missing-2", rule="R-C05-6", file="src/function/constraint.cpp",
+         old="        gx = 2.0 * (x - constraint.m_origin);", new="        gx = (x - constraint.m_origin);"),
+    dict(property="C05", name="minimum-gradient-sign", rule="R-C05-6", file="src/function/constraint.cpp",
+         old="""        gx.full(0.0)(constraint.m_dimension) = -1.0;
+    }
+    return constraint.m_value - x(constraint.m_dimension);""", new="""        gx.full(0.0)(constraint.m_dimension) = +1.0;
+    }
+    return constraint.m_value - x(constraint.m_dimension);"""),
+    dict(property="C05", name="state-inequalities-stored-in-eq-slot", rule="R-C05-7", file="src/solver/state.cpp",
+         old="            m_cineq(ineq) = ::vgrad(constraint, m_x, cgrad);", new="            m_cineq(eq) = ::vgrad(constraint, m_x, cgrad);"),
+    dict(property="C05", name="al-converged-without-criterion", rule="R-C05-8", file="src/solver/augmented.cpp",
+         old="const auto converged = iter_ok && criterion <= epsilon && ::nano::converged(bstate, cstate, epsilon);", new="const auto converged = iter_ok && ::nano::converged(bstate, cstate, epsilon);"),
+    dict(property="C05", name="al-criterion-ignores-inequalities", rule="R-C05-8", file="src/solver/augmented.cpp",
+         old="    return std::max(hinf, Vinf);", new="    return hinf + 0.0 * Vinf;"),
+    dict(property="C05", name="al-update-after-done", rule="R-C05-8", file="src/solver/augmented.cpp",
+         old="""        if (iter_ok && criterion < old_criterion)
+        {
+            bstate.update(cstate.x(), lambda, miu);
+            solver->more_precise(epsilonK);
+        }
+        if (done(bstate, iter_ok, converged, logger))
+        {
+            break;
+        }
+""", new="""        if (done(bstate, iter_ok, converged, logger))
+        {
+            break;
+        }
+        if (criterion < old_criterion)
+        {
+            bstate.update(cstate.x(), lambda, miu);
+            solver->more_precise(epsilonK);
+        }
+"""),]
 
 BENIGN = [
     dict(property="C07", name="get-descent-test-inlined", file="src/lsearchk.cpp",
@@ -840,4 +894,8 @@ BENIGN = [
     dict(property="C04", name="done-threshold-operands-swapped", file="src/program/solver.cpp",
          old="if (feasible && std::max({state.m_eta, state.m_rdual.lpNorm<2>(), state.m_rprim.lpNorm<2>()}) < epsilon)",
          new="if (feasible && std::max({state.m_rprim.lpNorm<2>(), state.m_eta, state.m_rdual.lpNorm<2>()}) < epsilon)"),
+    dict(property="C05", name="quadratic-penalty-reordered", file="src/function/penalty.cpp",
+         old="            gx += penalty() * 2.0 * fc * gc;", new="            gx += 2.0 * fc * penalty() * gc;"),
+    dict(property="C05", name="al-value-expanded", file="src/function/penalty.cpp",
+         old="            fx += 0.5 * ro * (fc + mu / ro) * (fc + mu / ro);", new="            fx += 0.5 * ro * fc * fc + fc * mu + 0.5 * mu * mu / ro;"),
 ]
